@@ -34,6 +34,7 @@ RULE = ('all grid shapes with 1..5 points per dimension in 1-D and 2-D and 1..3 
         'shapes x spacings x (E, nu) x Dirichlet on/off.  Non-trivial: more than one grid point.')
 RULE += (' '
          'FE Poisson: tensor-product spectrum 3^N - prod(1 + 2 cos) and zero interior row sums.')
+THOROUGH_ROUNDS = 4
 TRUSTED = ['SciPy dia_array semantics and format conversion', 'NumPy eigvalsh on the oracle side']
 PARTIAL = ['stencil theorem bounded to grids <= 3 per dimension', 'Poisson spectrum and elasticity: oracle only']
 HEADER = ('From Coq Require Import ZArith List.\nImport ListNotations.\n'
